@@ -1049,6 +1049,10 @@ class CFG:
 
         # helper function
         def update(x, W):
+            # A zero-valued update changes nothing; queueing it can starve the
+            # block when `metric(zero, zero)` is NaN (zero = -inf in Log, MaxPlus).
+            if W == self.R.zero:
+                return
             change[bucket[x]][x] += W
 
         change = defaultdict(self.R.chart)
